@@ -332,22 +332,23 @@ inductive OpI
   | stopI (ord : List (Str × Str)) (at_ : Nat) (intr : Op)
 deriving Repr
 
-/-- the flush loop with the window: answer of the flush, answer of the intruder (if it ran) -/
+/-- the flush loop with the window: answer of the flush and, if the intruder ran, its answer and the worlds
+    right before and right after it -/
 def syncWindow (st : Store) (snap : Loc) (at_ : Nat) (intr : Op) (w : World) :
-    Store × World × Except Err Unit × Option Res :=
+    Store × World × Except Err Unit × Option (Res × World × World) :=
   if snap.length ≤ at_ then
     match syncAll sh st.cfg.shard st.cfg.steps snap w with
     | (w, r) => (st, w, r, none)
   else
     match syncAll sh st.cfg.shard st.cfg.steps (snap.take at_) w with
-    | (w, .error e) => (st, w, .error e, none)
-    | (w, .ok _) =>
-      match step sh st intr w with
-      | (st', w, ires) =>
-        match syncAll sh st.cfg.shard st.cfg.steps (snap.drop at_) w with
-        | (w, r) => (st', w, r, some ires)
+    | (w1, .error e) => (st, w1, .error e, none)
+    | (w1, .ok _) =>
+      match step sh st intr w1 with
+      | (st', w2, ires) =>
+        match syncAll sh st.cfg.shard st.cfg.steps (snap.drop at_) w2 with
+        | (w3, r) => (st', w3, r, some (ires, w1, w2))
 
-def stepI (st : Store) (op : OpI) (w : World) : Store × World × Res × Option Res :=
+def stepI (st : Store) (op : OpI) (w : World) : Store × World × Res × Option (Res × World × World) :=
   match op with
   | .plain op => match step sh st op w with | (st, w, r) => (st, w, r, none)
   | .flushI ord at_ intr =>
